@@ -371,3 +371,38 @@ def lean_induction(ctx, prop, theorems):
     ctx.ob("%s.induction.mechanised" % prop, "lemma", ok, "lean4+mathlib", _time.time() - t0,
            "lean/Induction.lean accepted (theorems used here: %s); axioms reported by #print axioms: %s" % (", ".join(theorems), detail[-300:]) if ok
            else "lean did not accept lean/Induction.lean: %s" % detail)
+
+
+# ---------------------------------------------------------------------------------------------
+def capacity_holders(py):
+    """where the integrator keeps its initial buffer capacity: the class attribute INITIAL_SIZE of the pinned tree, or -- after a
+    refactoring -- a module constant of strapdown whose name contains INITIAL_SIZE.  [(object, attribute name)]"""
+    S = py.strapdown
+    out = []
+    if isinstance(getattr(S.Integrator, "INITIAL_SIZE", None), int):
+        out.append((S.Integrator, "INITIAL_SIZE"))
+    for k, v in list(vars(S).items()):
+        if "INITIAL_SIZE" in k.upper() and isinstance(v, int) and not isinstance(v, bool):
+            out.append((S, k))
+    return out
+
+
+def capacity_patches(py, n):
+    """`extra=` patches for rdomain / tdomain: initial capacity n (small capacities make the buffer-growth code run)"""
+    return [(obj, {name: n}) for obj, name in capacity_holders(py)] or [(py.strapdown.Integrator, dict(INITIAL_SIZE=n))]
+
+
+class Capacity:
+    """set_capacity = Capacity(py); set_capacity(3); ...; set_capacity.restore()"""
+
+    def __init__(self, py):
+        self.holders = capacity_holders(py)
+        self.old = [getattr(o, k) for o, k in self.holders]
+
+    def __call__(self, n):
+        for o, k in self.holders:
+            setattr(o, k, n)
+
+    def restore(self):
+        for (o, k), v in zip(self.holders, self.old):
+            setattr(o, k, v)
